@@ -321,6 +321,8 @@ def run(prop, tier, replay=None):
                 verdict.add("double-instance/depth%d" % _depth(ln["a"]["dn"]), {"line": ln, "scenario": allsc.get(t)})
             if ln["ev"] == "HarnessError":      # RunGroup refused to start the children of a freshly entered runnable
                 verdict.add("api-error/RunGroup/" + re.sub(r"[^A-Za-z]+", "-", ln["a"].get("err", ""))[:60], {"line": ln, "scenario": allsc.get(t)})
+            if ln["ev"] == "WaitSettled" and not ln["a"].get("ok"):
+                verdict.add("stall/waitSettle/never-clean", {"line": ln, "scenario": allsc.get(t)})
             if ln["ev"] == "Runaway":
                 verdict.add("runaway/restart-loop", {"line": ln, "scenario": allsc.get(t)})
             if ln["ev"] == "Stall":
